@@ -29,7 +29,7 @@ CLAIMED = {
          S_NOTE + ' rustc decides the coercion witnesses.', S('signature identity; rustc-decided coercion witnesses'), 'S+X'),
  'C04': ('other', 'For all ways of declaring <=k dependency bounds (inline / where / impl A+B / split / several module fns), by-ref and by-value deps and all mock settings within the bounds: impl where-clause = exactly the declared bounds, `EntraitT: Sync [+ Send] + \'static`, self type T iff no mock derivation else Impl<T> (S, option values symbolic). Bounds of several fns that share a last path segment without being the same trait (`B0`, `ma::B0`, `B0<u8>`) stay distinct (S, lazily shaped bounds). X: availability probes for application types each missing one bound / auto trait (rustc-decided constants asserted under Kani).',
          S_NOTE, S('bound sets and self type; availability probes rustc-decided'), 'S+X'),
- 'C05': ('model_checking', 'Kani/CBMC over expansions of concrete-dependency functions (type shapes ident/path/generic/tuple/array/&\'static): C itself, Impl<C> and a hand-written impl behind Impl<App> - also one written in a sibling module of the library (README Case 1, pub / pub(crate) trait) - traced for all argument values, also with a named lifetime parameter on the dependency reference, as qualified paths next to the fn's own type / const generics, and unsized (`&[u32]`, `&dyn Trait`); every compile failure of the corpus is a violation (X). Classification of dependency type shapes as concrete, concrete shapes accepted, impl target, nested entrait attribute, and the leaf-trait expansion (default selector, method lifetimes, async) forwarding to T (S).',
+ 'C05': ('model_checking', 'Kani/CBMC over expansions of concrete-dependency functions (type shapes ident/path/generic/tuple/array/&\'static): C itself, Impl<C> and a hand-written impl behind Impl<App> - also one written in a sibling module of the library (README Case 1, pub / pub(crate) trait) - traced for all argument values, also with a named lifetime parameter on the dependency reference, as qualified paths next to the other type / const generics of the fn, and unsized (`&[u32]`, `&dyn Trait`); every compile failure of the corpus is a violation (X). Classification of dependency type shapes as concrete, concrete shapes accepted, impl target, nested entrait attribute, and the leaf-trait expansion (default selector, method lifetimes, async) forwarding to T (S).',
          X_NOTE + ' ' + S_NOTE, X('concrete-type classification by S'), 'X+S'),
  'C06': ('model_checking', 'Kani/CBMC over entraited traits for default/ref/Borrow selectors with two providers: every call forwarded once to the selected provider, arguments in order, result unchanged, for all argument values (X). Forwarding call shape, where-clause on T per selector, impl header for all trait shapes within the bounds (S).',
          X_NOTE + ' ' + S_NOTE, X('call shapes / provider bounds by S'), 'X+S'),
